@@ -62,8 +62,11 @@ using std::size_t;
 // number strings when we don't have to,
 const size_t    MAX_PRINTF_DIGITS = 100;
 
-// The maximum number of characters for a floating point number.
-const size_t    MAX_FLOAT_CHARACTERS = 100;
+// The maximum number of characters for a floating point number
+// printed with "%.35f": a sign, up to 309 digits before the
+// decimal point (DBL_MAX is about 1.8e308), the decimal point
+// and 35 digits after it.
+const size_t    MAX_FLOAT_CHARACTERS = 1 + 309 + 1 + 35;
 
 
 
@@ -1439,7 +1442,7 @@ DOMStringHelper::NumberToCharacters(
     }
     else
     {
-        char            theBuffer[MAX_PRINTF_DIGITS + 1];
+        char            theBuffer[MAX_FLOAT_CHARACTERS + 1];
 
         using std::sprintf;
         using std::atof;
@@ -1503,7 +1506,7 @@ DOMStringHelper::NumberToCharacters(
             }
         }
 
-        XalanDOMChar    theResult[MAX_PRINTF_DIGITS + 1];
+        XalanDOMChar    theResult[MAX_FLOAT_CHARACTERS + 1];
 
         TranscodeNumber(
                 theBuffer,
@@ -1739,7 +1742,7 @@ NumberToDOMString(
     }
     else
     {
-        char            theBuffer[MAX_PRINTF_DIGITS + 1];
+        char            theBuffer[MAX_FLOAT_CHARACTERS + 1];
 
         using std::sprintf;
         using std::atof;
